@@ -1003,6 +1003,29 @@ fn run_op(tx: &mut Transaction, op: &Value) -> Value {
             Ok(ss) => res_bytes(ss.to_bytes()),
             Err(e) => json!({ "err": e.to_string() }),
         },
+        "pubkey_derive" => {
+            // every way the library derives the public key of a private key, against k256 called directly, for both key forms
+            use k256::elliptic_curve::sec1::ToEncodedPoint;
+            let key = hx(&op["key"]);
+            let mut problems: Vec<String> = vec![];
+            for compressed in [true, false] {
+                let k = PrivateKey::from_bytes(&key).expect("key").compress_public_key(compressed);
+                let want = k256::SecretKey::from_be_bytes(&key).unwrap().public_key().to_encoded_point(compressed).as_bytes().to_vec();
+                let form = if compressed { "compressed" } else { "uncompressed" };
+                if k.get_point() != want {
+                    problems.push(format!("{} key: PrivateKey::get_point is not the {} SEC1 encoding of the public point", form, form));
+                }
+                let p1 = PublicKey::from_private_key(&k);
+                if p1.to_bytes().ok() != Some(want.clone()) || p1.is_compressed() != compressed {
+                    problems.push(format!("{} key: PublicKey::from_private_key gives {} (is_compressed {})", form, p1.to_hex().unwrap_or_default(), p1.is_compressed()));
+                }
+                match k.to_public_key() {
+                    Ok(p2) if p2.to_bytes().ok() == Some(want.clone()) && p2.is_compressed() == compressed => {}
+                    other => problems.push(format!("{} key: PrivateKey::to_public_key gives {:?}", form, other.map(|p| p.to_hex().unwrap_or_default()).map_err(|e| e.to_string()))),
+                }
+            }
+            json!({ "ok": { "problems": problems } })
+        }
         "bsm_verify" => {
             // sign `message` with the key, derive the key's P2PKH address under `prefix`, verify against it
             let key = PrivateKey::from_bytes(&hx(&op["key"])).expect("key").compress_public_key(op["compressed"].as_bool().unwrap_or(true));
